@@ -80,12 +80,8 @@ func runC02(c *Ctx, w *World, r *Report) {
 			}
 		}
 		bitSet := func(conds []Cond) bool {
-			for _, cd := range conds {
-				if bo, ok := cd.V.(*ssa.BinOp); ok && (bo.Op == token.NEQ && cd.Pol || bo.Op == token.EQL && !cd.Pol) {
-					if k, ok := constInt64(stripConv(bo.Y)); ok && k == 0 && stripConv(bo.X) == rd.Use {
-						return true
-					}
-				}
+			if bitKnownSet(conds, rd) {
+				return true
 			}
 			return false
 		}
